@@ -26,7 +26,10 @@ def stable_tests(wt):
         cmd = [PY, '-m', 'pytest', '-q', '-p', 'no:cacheprovider', '--timeout=90', '--continue-on-collection-errors', '--junitxml=' + path]
         if files:
             cmd += files
-        sh(cmd, cwd=wt, env=env, timeout=3000)
+        try:
+            sh(cmd, cwd=wt, env=env, timeout=420)
+        except subprocess.TimeoutExpired:
+            pass  # pytest sometimes hangs at interpreter exit on this machine after writing its report
         try:
             for tc in ET.parse(path).getroot().iter('testcase'):
                 if not any(ch.tag in ('failure', 'error', 'skipped') for ch in tc):
